@@ -19,7 +19,8 @@ PROPERTY = 'C16'
 RULE = ('matrix: every /v1/peer/ rule x {GET,HEAD,POST,PUT,DELETE,PATCH,OPTIONS} x {no credentials, wrong user, wrong password, '
         'empty password, right} x {Idle-fresh, Idle-stopped, Connect, OpenSent, OpenConfirm, Established} x {valid, empty, '
         'malformed} body; sends: generated UPDATE requests (IPv4 + standard attributes, IPv6 unicast, VPNv4), route-refresh '
-        'and bin_update requests on eBGP / iBGP sessions in 4- and 2-octet-AS mode, plus the enumerated grid session kind x '
+        'and bin_update requests on eBGP / iBGP sessions in 4- and 2-octet-AS mode, with [bgp] rib on / off and 0-2 earlier '
+        'announcements on the same session whose prefixes the checked request may withdraw or re-announce, plus the enumerated grid session kind x '
         'LOCAL_PREF {absent,0,1,100,2^31,2^32-1} x MED x shape for the default-LOCAL_PREF rule. '
         'Non-trivial = request hits a state-changing or sending endpoint or uses wrong-but-well-formed credentials; '
         'distinct by (rule, method, credentials, state, body).')
@@ -55,8 +56,8 @@ def valid_body(rule):
     return None
 
 
-def make_state(name, ibgp=False, as4=True):
-    kw = dict(hold_time=180, idle_hold_time=30)
+def make_state(name, ibgp=False, as4=True, rib=False):
+    kw = dict(hold_time=180, idle_hold_time=30, rib=rib)
     if ibgp:
         kw['remote_as'] = 65001
     sim = Sim(**kw)
@@ -209,6 +210,20 @@ def send_request(draw):
         req['nlri'] = draw(prefix_list)[:8]
     if shape in ('withdraw', 'both'):
         req['withdraw'] = draw(prefix_list)[:8]
+    rib = draw(st.booleans())
+    pre = []
+    if shape in ('announce', 'withdraw', 'both') and draw(st.booleans()):
+        # one or two earlier announcements; the request under test may withdraw / re-announce some of their prefixes
+        for _ in range(draw(st.integers(1, 2))):
+            pl = draw(prefix_list)[:4] or ['10.77.0.0/16']
+            pre.append({'attr': {'1': 0, '2': [[2, [65001]]], '3': '10.0.0.1'}, 'nlri': pl})
+        earlier = [p_ for r_ in pre for p_ in r_['nlri']]
+        if 'withdraw' in req:
+            mix = draw(st.lists(st.sampled_from(earlier), max_size=3))
+            pos = draw(st.integers(0, len(req['withdraw'])))
+            req['withdraw'] = (req['withdraw'][:pos] + mix + req['withdraw'][pos:])[:10]
+        if 'nlri' in req and draw(st.booleans()):
+            req['nlri'] = (draw(st.lists(st.sampled_from(earlier), max_size=2)) + req['nlri'])[:8]
     if shape == 'v6':
         req['attr'] = {'1': 0, '2': [[2, [65001]]], '14': {'afi_safi': [2, 1], 'nexthop': draw(vs.ipv6_global),
                                                            'nlri': draw(st.lists(vs.prefix6(), min_size=1, max_size=4))}}
@@ -217,7 +232,7 @@ def send_request(draw):
                                                            'nlri': draw(st.lists(st.fixed_dictionaries({
                                                                'prefix': vs.prefix4(), 'rd': vs.rd_text(),
                                                                'label': st.lists(vs.label, min_size=1, max_size=1)}), min_size=1, max_size=3))}}
-    return {'ibgp': ibgp, 'as4': as4, 'shape': shape, 'req': req}
+    return {'ibgp': ibgp, 'as4': as4, 'rib': rib, 'pre': pre, 'shape': shape, 'req': req}
 
 
 def other_send_case(case):
@@ -258,10 +273,14 @@ def send_case(case):
         return other_send_case(case)
     ibgp, req = case['ibgp'], case['req']
     as4 = case.get('as4', True)
-    sim = make_state('ESTABLISHED', ibgp=ibgp, as4=as4)
+    sim = make_state('ESTABLISHED', ibgp=ibgp, as4=as4, rib=case.get('rib', False))
     c = ss.live_connectors(sim)[-1]
+    # earlier requests on the same session (they fill the agent's Adj-RIB-Out when [bgp] rib is on)
+    for pre in case.get('pre') or []:
+        sim.rest('POST', '/v1/peer/%s/send/update' % PEER, json_body=copy.deepcopy(pre))
+        sim.reactor.settle(fire_due=True)
     mark = sim.mark()
-    code, body = sim.rest('POST', '/v1/peer/%s/send/update' % PEER, json_body=req)
+    code, body = sim.rest('POST', '/v1/peer/%s/send/update' % PEER, json_body=copy.deepcopy(req))
     sim.reactor.settle(fire_due=True)
     out = []
     try:
@@ -369,7 +388,7 @@ def run_shard(spec, seed, col, tier):
     def body(case):
         res = send_case(case)
         case = dict(case, k='send')
-        col.case(case, True, labels=['send', 'shape:' + case['shape'], 'ibgp:%s' % case['ibgp'], 'as4:%s' % case.get('as4', True)])
+        col.case(case, True, labels=['send', 'shape:' + case['shape'], 'ibgp:%s' % case['ibgp'], 'as4:%s' % case.get('as4', True), 'rib:%s' % case.get('rib', False), 'earlier-requests:%d' % len(case.get('pre') or [])])
         for sig, detail in res:
             col.fail(sig, case, detail)
     hyp_run(col, send_request(), body, seed, spec['examples'])
